@@ -318,6 +318,14 @@ def extra_C18(tier, seed, scratch, cfg, out):
                 L = r.choice([75, 100, 148, 149, 223])
                 ses.do("addpage %s 1" % hx(b"\x80A|" + b"C" * (L - 1) + b"|"))
             ses.run(6 if tier == "quick" else 10, skip_init=True)
+            clear_start, pre_pages, pre_links = None, set(), set()
+            if i % 3 == 2:                  # a `clear` in the middle of the history: its two truncations are crash points too
+                ses.w_addlinks()
+                pre_pages = set(x.split(":")[0] for x in _items(im.exec("? pagesiter")[0]))
+                pre_links = set(_items(im.exec("? linksiter 1")[0]))
+                clear_start = len(FULL_LOG)
+                ses.do(r.choice(["clear - none", "clear - []", "clear domain []"]))
+                ses.run(r.randint(0, 4), skip_init=True)
             base_lines = list(ses.lines)
             nlog = len(FULL_LOG)
             log_kinds = [(k, o, len(d)) for k, o, d in FULL_LOG]
@@ -328,6 +336,8 @@ def extra_C18(tier, seed, scratch, cfg, out):
             ks = list(range(nlog + 1))
             if len(ks) > (120 if tier == "quick" else 100000):
                 ks = sorted(r.sample(ks, 120))
+            if clear_start is not None:
+                ks = sorted(set(ks) | set(range(clear_start, min(nlog, clear_start + 5) + 1)))
             cuts = [(k, 0) for k in ks]
             for k in r.sample(range(nlog), min(nlog, 25 if tier == "quick" else 400)):
                 kind, off, ln = log_kinds[k]
@@ -352,13 +362,14 @@ def extra_C18(tier, seed, scratch, cfg, out):
                     if ans[0].startswith("err") and not (q == "? metrics" and ans[0] == "err other ZeroDivisionError"):
                         hits.append({"kind": "cut", "lines": base_lines, "cut": [k, j], "finding": {
                             "reason": "the reopened index cannot be queried: %s fails" % q, "answer": ans[0]}})
+                    before_clear = clear_start is not None and k <= clear_start     # the history completed so far ends before the clear
                     if q == "? pagesiter" and ans[0].startswith("ok"):
-                        extra_pages = set(x.split(":")[0] for x in _items(ans[0])) - final_pages
+                        extra_pages = set(x.split(":")[0] for x in _items(ans[0])) - (pre_pages if before_clear else final_pages)
                         if extra_pages:
                             hits.append({"kind": "cut", "lines": base_lines, "cut": [k, j], "finding": {
                                 "reason": "the cut index reports a page the completed history does not", "pages": sorted(extra_pages)[:3]}})
                     if q == "? linksiter 1" and ans[0].startswith("ok"):
-                        extra_links = set(_items(ans[0])) - final_links
+                        extra_links = set(_items(ans[0])) - (pre_links if before_clear else final_links)
                         if extra_links:
                             hits.append({"kind": "cut", "lines": base_lines, "cut": [k, j], "finding": {
                                 "reason": "the cut index reports a link the completed history does not", "links": sorted(extra_links)[:3]}})
